@@ -112,6 +112,8 @@ def gen(rng, scenario, tier):
         for r, y in zip(rows, ys):
             if rng.random() < 0.01:
                 ev.append(["r"])
+            if rng.random() < 0.01:
+                ev.append(["swap", rng.randrange(len(names))])     # the user replaces a member by a fresh detector (e.g. after retraining)
             if rng.random() < 0.015 and any(e[0] == "u" for e in ev):       # (a width is only wrong once one is established)
                 ev.append(["bad", rng.choice(["rows2", "width+1"]), np_seed(rng)])   # malformed call to the ensemble
             ev.append(["u", r, y, np_seed(rng)])
@@ -183,12 +185,23 @@ def run(case, ctx):
     ens = ctx.call("C12:ctor", (StreamingEnsemble if stream else BatchEnsemble), members, _make_election(case["election"]),
                    {k: f for k, f in sels.items() if f is not None})
     est = {}
+    fresh_member = False
     n_updates = 0
     since = 0
     first_alarm = {}
     for i, ev in enumerate(case["events"]):
         ctx.step = i
-        clock[0] = ev[-1] if ev[0] != "r" else 0
+        clock[0] = ev[-1] if ev[0] not in ("r", "swap") else 0
+        if ev[0] == "swap":
+            key, nme, mcfg = case["members"][ev[1] % len(case["members"])]
+            real[key] = adapters.build(nme, mcfg)
+            twins[key] = adapters.build(nme, mcfg)
+            ens.detectors[key] = Seeded(real[key], key, clock)      # the public dict of members is the ensemble's membership
+            ctx.fault("member_replaced_by_fresh_detector")
+            fresh_member = True
+            if stream is False:
+                raise EndRun()   # (a fresh batch member has no reference yet)
+            continue
         if ev[0] == "r":
             ctx.call("C12:reset", ens.reset)
             ctx.fault("explicit_reset")
@@ -197,6 +210,8 @@ def run(case, ctx):
             since = 0
             if ens.drift_state is not None:
                 ctx.violation("reset", "C12:reset:ensemble_state", f"ensemble drift_state {ens.drift_state!r} after reset()")
+        elif ev[0] == "bad" and fresh_member:
+            continue     # a fresh member has no established width yet: for it the call is not malformed
         elif ev[0] == "bad":
             kind = ev[1]
             rows = {"rows2": 2, "rows1": 1}.get(kind, 1 if stream else 6)
@@ -263,6 +278,7 @@ def run(case, ctx):
             ctx.sim_time += 1
             n_updates += 1
             since += 1
+            fresh_member = False
             for k in keys:
                 np.random.seed(derive(clock[0], k) % (2**32 - 1))
                 X2 = _wrap(ev[1], container)
@@ -329,4 +345,4 @@ def fix(case):
 def summarize(case):
     return {"scenario": case["scenario"], "members": [[m[0], m[2]] for m in case["members"]], "selectors": case["selectors"],
             "election": case["election"], "container": case["container"],
-            "ops": "".join({"u": "u", "r": "R", "ref": "S", "bad": "!"}[e[0]] for e in case["events"][:80])}
+            "ops": "".join({"u": "u", "r": "R", "ref": "S", "bad": "!", "swap": "x"}[e[0]] for e in case["events"][:80])}
